@@ -259,6 +259,12 @@ func (fc *funcContext) translateFunctionBody(typ *ast.FuncType, recv *ast.Ident,
 			if isWrapped(fc.typeOf(recv)) {
 				this = "this.$val" // Unwrap receiver value.
 			}
+			switch fc.typeOf(recv).Underlying().(type) {
+			case *types.Array, *types.Struct:
+				// An array or struct receiver is the method's own copy: method values and
+				// interface method calls invoke the method on the bound or boxed object itself.
+				this = fmt.Sprintf("$clone(%s, %s)", this, fc.typeName(fc.typeOf(recv)))
+			}
 			fc.Printf("%s = %s;", fc.translateExpr(recv), this)
 		}
 
